@@ -210,7 +210,13 @@ def w_estimator(ctx, rng, i):
     shift = float(rng.normal(0, 20)) * s
     ctx.describe(mu0=mu0, mu1=mu1, s0=s0, s1=s1, M=M, shift=shift)
     ey = T.eye(mu0=mu0, mu1=mu1, s0=s0, s1=s1)
-    ey2 = T.eye(mu0=mu0 + shift, mu1=mu1 + shift, s0=s0, s1=s1)
+    # the shifted twin also carries everything else a measured eye holds (GET_EYE's own threshold, timing, samples): the estimators
+    # "depend only on mu1-mu0, s0, s1 and M"
+    extra = {}
+    if i % 2:
+        extra = dict(threshold=float(mu0 + shift + rng.uniform(0.05, 0.95) * d), t_opt=float(rng.uniform(-0.2, 0.2)), t_left=-0.5, t_right=0.5, i=int(rng.integers(0, 16)), sps=16,
+                     y=rng.normal(0, 1, 8), t=np.linspace(-1, 1, 8), er=float(rng.uniform(1, 30)), eye_h=float(d * 0.7))
+    ey2 = T.eye(mu0=mu0 + shift, mu1=mu1 + shift, s0=s0, s1=s1, **extra)
     with core.quiet():
         # OOK
         est = float(O.BER_analizer("estimator", eye_obj=ey))
